@@ -89,6 +89,12 @@ class ConfigList(ComposedNode, list):
     def get_child(self, index, default=None):
         return self._get(index, default=default, raise_ex=False)
 
+    @namespace('ayns')
+    def rename_child(self, old_name, new_name):
+        # the children of a list are numbered by their position (0..n-1, what the list view and all path
+        # look-ups rely on): the generic implementation would leave a gap in the numbering
+        raise ValueError(f'Cannot rename a child named: {old_name!r} to {new_name!r}, children of a list node are named by their position')
+
     def __contains__(self, value):
         return list.__contains__(self, value)
 
